@@ -21,6 +21,7 @@ HEADER = "From Coq Require Import PrimFloat.\nFrom Verif Require Import Spec.Pdd
 
 ADMISSIBLE_KINDS = ["fresh", "fresh-shuffled-dict", "swap", "permutation", "rotation", "chain", "overlap",
                     "partial-fresh", "identity", "library-style"]
+JUDGED_KINDS = ADMISSIBLE_KINDS + ["exhaustive", "corpus"]
 FOREIGN_KINDS = ["collapse", "capture", "onto-constant", "moves-constant", "onto-unrenamed"]
 
 
@@ -224,7 +225,7 @@ def uses_constant(w, a):
 
 
 def generate(rng, tier):
-    n_worlds = {"quick": 45, "thorough": 420}[tier]
+    n_worlds = {"quick": 45, "thorough": 320}[tier]
     cases = []
     for _ in range(n_worlds):
         w = G.gen_world(rng, max_actions=2)
@@ -345,6 +346,34 @@ def fixture_cases(rng, tier):
     return cases, skipped
 
 
+# ---------------------------------------------------------------------------------------------- exhaustive small scope
+def exhaustive_cases(rng, n_actions):
+    """for some generated actions: EVERY injective mapping of the parameters into (the parameters + two fresh names),
+    i.e. all permutations, all partial overlaps, all chains of that action at once"""
+    cases, done = [], 0
+    while done < n_actions:
+        w = G.gen_world(rng, max_actions=1)
+        a = w.actions[0]
+        ps = [p for p, _ in a["params"]]
+        if len(ps) < 2:
+            continue
+        done += 1
+        objs = G.gen_objects(rng, w)
+        text = G.render(w.domain_tree("dom"))
+        st = G.gen_state(rng, w, objs)
+        ptxt = G.problem_text(w, objs, st, domain="dom")
+        probes = [{"args": args, "state": st, "problem_text": ptxt} for args in G.calls_for(rng, w, objs, a, limit=2)]
+        bound = bound_vars(a["pre"]) | bound_vars(a["eff"])
+        fresh = fresh_names(rng, 2, set(ps) | bound | {c for c, _ in w.consts})
+        feats = action_features(a) + (["constant"] if uses_constant(w, a) else [])
+        for image in itertools.permutations(ps + fresh, len(ps)):
+            m = [[p, q] for p, q in zip(ps, image)]
+            cases.append({"domain_text": text, "objects": objs, "action": a["name"], "mapping": m, "kind": "exhaustive",
+                          "probes": probes, "features": sorted(w.features), "action_features": feats,
+                          "nparams": len(ps), "witness_of": None})
+    return cases
+
+
 def cpairs(pairs):
     return clist(["(%s, %s)" % (cstr(a), cstr(b)) for a, b in pairs])
 
@@ -385,7 +414,7 @@ def run(args):
         cases = [data["input"]["case"]]
     else:
         fx, fx_skipped = fixture_cases(rng, args.tier)
-        cases = corpus_cases() + fx + generate(rng, args.tier)
+        cases = corpus_cases() + fx + generate(rng, args.tier) + exhaustive_cases(rng, {"quick": 2, "thorough": 30}[args.tier])
     cfg = run_impl([{"op": "core.numeric_config"}], nproc=1)[0]
     hashseeds = [0] if args.tier == "quick" else [0, 1, 2]
     all_units, all_verdicts = [], ""
@@ -412,8 +441,8 @@ def run(args):
             units.append(u)
             kept.append((c, res, nprobes))
         t_coq = time.time()
-        verdicts, info = run_case_shards(PROP, "Corr.C18", lits, shard_size=30, units=units, header_extra=HEADER,
-                                         max_bytes=150_000)
+        verdicts, info = run_case_shards(PROP, "Corr.C18", lits, shard_size=20, units=units, header_extra=HEADER,
+                                         max_bytes=60_000)
         timing["coq_s"] += time.time() - t_coq
         info_total["shards"] += info["shards"]
         info_total["shard_errors"] += info["shard_errors"]
@@ -434,14 +463,14 @@ def run(args):
                     pi = (k - 2) // 2
                     inp["probe_index"] = pi
                     inp["probe_result"] = res["probes"][pi] if pi < len(res["probes"]) else None
-                nontrivial = moved > 0 and c["kind"] in ADMISSIBLE_KINDS and bool(c["action_features"] or c["features"]) \
+                nontrivial = moved > 0 and c["kind"] in JUDGED_KINDS and bool(c["action_features"] or c["features"]) \
                     and (k < 2 or len(c["probes"][min((k - 2) // 2, len(c["probes"]) - 1)]["state"]["facts"]) > 0)
                 all_units.append({"lit": lit, "input": inp, "nontrivial": nontrivial, "witness_of": c.get("witness_of")})
             all_verdicts += chunk
             if hs == hashseeds[0]:
                 stats["cases"] += 1
                 stats["kinds"][c["kind"]] = stats["kinds"].get(c["kind"], 0) + 1
-                stats["admissible_kinds" if c["kind"] in ADMISSIBLE_KINDS or c["kind"] == "corpus" else "foreign_kinds"] += 1
+                stats["admissible_kinds" if c["kind"] in JUDGED_KINDS else "foreign_kinds"] += 1
                 stats["nparams"][str(c.get("nparams", "?"))] = stats["nparams"].get(str(c.get("nparams", "?")), 0) + 1
                 stats["moved_parameters"][str(moved)] = stats["moved_parameters"].get(str(moved), 0) + 1
                 for f in c["action_features"]:
@@ -479,6 +508,8 @@ def run(args):
                    + ", ".join(FOREIGN_KINDS) + ": only the model has to agree there) x 2 states x <=3 type-correct calls. "
                    "Plus the repository's own domain files (tests/**, a sample in the quick tier, all below 40 kB in the thorough tier): their "
                    "largest actions x (fresh ?param_i names, one overlapping kind), with probes along a short walk from the shipped problem where one exists. "
+                   "Plus, for a few generated actions with >= 2 parameters (2 in the quick tier, 30 in the thorough tier), EVERY injective mapping of the "
+                   "parameters into the parameters plus two fresh names (kind 'exhaustive': all permutations, overlaps and chains of that action). "
                    "Each case yields a signature unit, a text unit and (applicability, successor) units per probe. A unit is non-trivial when the "
                    "mapping moves at least one parameter, is of an admissible kind, the action/world uses an optional feature and (for probes) the "
                    "state has facts; distinct by input hash. Admissibility is re-decided inside Coq on the spec's reading of the action.")
